@@ -42,7 +42,11 @@ PATCH_INPUTS = [([{"op": "add", "path": "/z", "value": 1}], "ok"), ([{"op": "rem
                 ([{"op": "remove", "path": "/nope"}], "patch"), ([{"op": "test", "path": "/a", "value": 1}], "patch"), ([{"op": "nosuch"}], "patch"), ({"op": "add"}, "notlist"),
                 ([{"op": "add", "path": "x", "value": 1}], "patch"),
                 ([{"op": "replace", "path": "/\\u00e9", "value": "changed"}], "ok"), ([{"op": "replace", "path": "/s%20t", "value": "changed"}], "ok"),
-                ([{"op": "test", "path": "/\\u00e9", "value": "literal"}], "ok")]     # flag-sensitive: --no-unicode-escape / -u decide which member is meant
+                ([{"op": "test", "path": "/\\u00e9", "value": "literal"}], "ok"),
+                # every operation the library's patch builder knows, the documented non-standard ones included
+                ([{"op": "addne", "path": "/a", "value": "kept?"}, {"op": "addne", "path": "/fresh", "value": 1}], "ok"), ([{"op": "addap", "path": "/a/99", "value": "appended"}], "ok"),
+                ([{"op": "move", "from": "/a/0", "path": "/m"}, {"op": "test", "path": "/m", "value": 1}, {"op": "replace", "path": "/m", "value": None}], "ok"),
+                ([1, 2], "patch"), ([{"path": "/a"}], "patch"), ([{"op": "ADD", "path": "/z", "value": 1}], "patch")]     # flag-sensitive: --no-unicode-escape / -u decide which member is meant
 DOC_KINDS = ["valid", "malformed", "undecodable", "bom", "utf16", "nonfinite", "word", "two-values", "open-string", "empty", "string-json", "string-plain"]       # the last two: valid JSON the library decodes from bytes (BOM, UTF-16)
 
 
